@@ -16,11 +16,98 @@ class Check(RuntimeCheck):
     theorems = ['evalCall_reasons', 'C08_call_logs', 'C08_method_call_logs', 'C08_user_panic_not_recorded',
                 'C08_mock_panic_recorded', 'C08_teardown_forwards', 'LogLe.refl', 'LogLe.trans', 'C08_step_log_append_only', 'C08_log_append_only', 'C08_source_error_path', 'C08_source_report_path', 'C08_source_teardown_forwards', 'C08_source_responder_errors_are_errors']
 
+    def par_errors(self, rep, tier, seed):
+        """several threads hit mock-induced panics at the same time (every panic is swallowed at the thread boundary): under every
+        schedule — each lock acquisition and atomic is a switch point — the original's verification lists every one of them"""
+        from ..parcheck import ParCheck, par_scenario
+        class Par(ParCheck):
+            prop = 'C08'
+            def scenarios(self, tier, seed):
+                tree = tup([term(1, 'each', Pat(mask=1, chain=[seg('ret1', 'al0')])), term(0, 'next', Pat(mask=1, chain=[seg('ret2', 'n1')]))])
+                fams = [('e2', tree, [[(1, 1)], [(1, 2)]]),                      # two rejected calls, different arguments
+                        ('e3', tree, [[(1, 1)], [(1, 2)], [(5, 0)]]),            # ... and a call to an unmentioned method
+                        ('e2o', tree, [[(0, 1)], [(1, 2), (1, 0)]])]             # an ordered call with wrong arguments next to a rejected and an accepted one
+                return [(n, par_scenario(n, 'strict', t, threads, False)) for n, t, threads in fams]
+            def caps(self, tier):
+                return (1500, 60) if tier == 'quick' else (40000, 2000)
+            def judge(self, name, r, seqs):
+                j = super().judge(name, r, seqs)
+                if j:
+                    return j
+                nerr = sum(1 for t in r['outs'].split('|') for o in t.split(',') if o and not o.startswith('ret'))
+                nrec = len([x for x in re.split(r'[,|]', r['reasons']) if x.strip()]) if r['reasons'] not in ('', '-', '[]') else 0
+                if nrec < nerr:
+                    return f"{nerr} calls panicked but only {nrec} errors were recorded: {r['reasons']}"
+                return None
+        Par().explore_into(rep, tier, seed, merge=True)
+
+    def nostd_clones(self, rep, tier, seed):
+        """configuration B (unimock built WITHOUT std: spin-lock + critical-section): errors induced through clones — swallowed — must
+        still fail the original's verification with their text; the original itself never panics in these histories (without std a
+        swallowed panic on the original deliberately disables its verification). Oracle on the real trace alone."""
+        import os, subprocess
+        from .. import engine
+        hb = os.path.join(engine.VERIF, 'harness_nostd')
+        lock = os.path.join(hb, 'Cargo.lock')
+        if not os.path.exists(lock):
+            import shutil; shutil.copy('/repo/Cargo.lock', lock)
+        rc, out, err = engine.sh(['cargo', 'build', '--offline', '--bin', 'replay'], cwd=hb)
+        if rc != 0:
+            path = engine.write_replay(self.prop, 'build', (out + err)[-6000:], ["the harness no longer builds against /repo without the std feature (spin-lock + critical-section)"])
+            rep.violation(path, "no_std configuration of the harness does not build against /repo", no_input=True)
+            return
+        exe = os.path.join(hb, 'target', 'debug', 'replay')
+        rng = scn.Rng(seed * 7 + 5)
+        n = 150 if tier == 'quick' else 4000
+        out_text = []
+        for k in range(n):
+            tree = tup([term(1, 'each', Pat(mask=1, chain=[seg('ret1', 'al0')])), term(5, 'each', Pat(mask=255, chain=[seg('pan', 'al0')] if k % 3 == 0 else [seg('ret2', 'al0')]))])
+            evs = [scn.build(0, 0, 'strict', tree), scn.clone(0, 1)]
+            nclones = 1 + rng.below(2)
+            if nclones == 2:
+                evs.append(scn.clone(1, 2))
+            for _ in range(1 + rng.below(3)):
+                c = 1 + rng.below(nclones)
+                kind = rng.below(3)
+                evs.append(scn.call(c, 1, 1 + rng.below(3)) if kind == 0 else (scn.call(c, 2, 0) if kind == 1 else scn.call(c, 5, 0)))     # rejected arguments / unmentioned method / explicit panic (or a fine call)
+                if rng.chance(1, 2):
+                    evs.append(scn.call(0, 1, 0))        # the original only ever makes accepted calls
+            for c in range(nclones, 0, -1):
+                evs.append(scn.drop(c))
+            evs.append(scn.verify(0) if k % 2 else scn.drop(0))
+            out_text.append(scn.scenario(f"nc{k}", evs))
+        text = ''.join(out_text)
+        p = subprocess.run([exe], input=text, capture_output=True, text=True, timeout=1200)
+        if p.returncode != 0:
+            path = engine.write_replay(self.prop, 'toolerror', text[:5000], [f"no_std replay exited {p.returncode}: {p.stderr[-600:]}"])
+            rep.violation(path, f"no_std replay crashed ({p.returncode})", no_input=True)
+            return
+        from .. import canon
+        real_raw, order = canon.split_scenarios(p.stdout)
+        texts = scn.split_text(text)
+        nerr = 0; shown = 0
+        for nme in order:
+            lines = real_raw[nme]
+            induced = [l.split('\t')[2] for l in lines if l.startswith('call\tpanic\t') and len(l.split('\t')) > 2]
+            final = next((l for l in reversed(lines) if l.startswith('teardown')), '')
+            nerr += len(induced)
+            missing = [m for m in induced if m.split('\\n')[0] not in final]
+            if induced and (missing or not final.startswith('teardown\tpanic')) and shown < 2:
+                shown += 1
+                path = engine.write_replay(self.prop, 'spec', texts.get(nme, ''), [f"property C08 violated by the real code built without std (spin-lock + critical-section): {len(induced)} errors were induced through clones and swallowed, the original made only accepted calls, yet its final verification says `{final[:200]}`; missing: {missing[:2]}",
+                                                                                    "replay: /verif/harness_nostd/target/debug/replay < this file"])
+                rep.violation(path, f"no_std build, scenario {nme}: errors induced through clones are not reported by the original's verification: `{final[:160]}`")
+        rep.coverage['nostd_clone_error_histories'] = len(order)
+        rep.coverage['nostd_clone_errors'] = nerr
+        rep.coverage['evaluations'] = rep.coverage.get('evaluations', 0) + len(order)
+
     def extra(self, rep, tier, seed):
         """swallowed mock-induced panics whose message is unusual to render (long non-ASCII Debug text, empty / multi-line
         panics() message, emoji) must be remembered all the same: harness/src/bin/messages.rs `post` lines"""
         import os, subprocess
         from .. import engine
+        self.par_errors(rep, tier, seed)
+        self.nostd_clones(rep, tier, seed)
         ok, log = engine.build_harness(['messages'])
         if not ok:
             path = engine.write_replay(self.prop, 'build', log + '\n', ["harness/src/bin/messages.rs no longer builds against /repo"])
